@@ -26,6 +26,7 @@ OPS = [
     "astype_float", "copy", "subregion", "time_slice", "time_interval", "metadata", "weight_float", "weight_int", "weight_image",
     "weight_image_resized", "weight_array", "stack", "stack_series", "append_like", "superpose", "refine", "coarsen", "reduce", "extrude", "resize", "zeros_like", "ones_like",
     "clip_model", "linear_model", "combined_model", "integrate", "normalize", "bounding_box", "random_patches", "init_lists", "init_height",
+    "subregion_voxelarray", "subregion_coordinates", "optical_mono_red_of_bgr", "optical_mono_blue_of_rgb", "optical_trichromatic_returned", "optical_mono_uint8_hsv", "optical_mono_uint8_gray",
 ]
 
 
@@ -59,6 +60,25 @@ def install_stubs():
     import darsia.restoration.resize as rz
 
     ar.cv2 = rz.cv2
+    import darsia.image.image as im
+    from symx import npx
+    from symx.core import Unsupported
+
+    real = im.cv2
+
+    class _CV2:
+        def __getattr__(self, n):
+            return getattr(real, n)
+
+        @staticmethod
+        def cvtColor(src, code, *a, **k):
+            if npx.has_sym(src):
+                if code in (real.COLOR_BGR2RGB, real.COLOR_RGB2BGR):
+                    return src[..., ::-1].copy()  # exact channel permutation
+                raise Unsupported("cv2.cvtColor on symbolic data (non-permutation colour space)")
+            return real.cvtColor(src, code, *a, **k)
+
+    im.cv2 = _CV2()
 
     def seed_hook(k=None, *a, **kw):
         RNG["state"] = const_real(int(k) if k is not None else -1)
@@ -78,7 +98,7 @@ class Tracker:
 
     def image(self, name, img):
         meta = img.metadata()
-        self.items.append(("image", name, img, dict(arr=img.img, data=img.img.copy(), shape=tuple(img.img.shape), dims=list(img.dimensions), origin=list(img.origin), series=img.series, scalar=img.scalar, time=copy.copy(img.time), date=copy.copy(img.date), name=img.name, space_dim=img.space_dim, dims_obj=img.dimensions)))
+        self.items.append(("image", name, img, dict(color_space=getattr(img, "color_space", None), dtype=img.img.dtype, arr=img.img, data=img.img.copy(), shape=tuple(img.img.shape), dims=list(img.dimensions), origin=list(img.origin), series=img.series, scalar=img.scalar, time=copy.copy(img.time), date=copy.copy(img.date), name=img.name, space_dim=img.space_dim, dims_obj=img.dimensions)))
         return img
 
     def array(self, name, arr):
@@ -94,10 +114,10 @@ class Tracker:
             if kind == "image":
                 same_shape = tuple(obj.img.shape) == snap["shape"]
                 S.claim(f"{tag}:{name}:pixels_unchanged", S.and_(same_shape, S.eq(obj.img, snap["data"]) if same_shape else False))
-                S.claim(f"{tag}:{name}:metadata_unchanged", S.and_(S.eq(list(obj.dimensions), snap["dims"]), S.eq(list(obj.origin), snap["origin"]), obj.series == snap["series"], obj.scalar == snap["scalar"], _same(obj.time, snap["time"]), obj.date == snap["date"], obj.name == snap["name"], obj.space_dim == snap["space_dim"]))
+                S.claim(f"{tag}:{name}:metadata_unchanged", S.and_(S.eq(list(obj.dimensions), snap["dims"]), S.eq(list(obj.origin), snap["origin"]), obj.series == snap["series"], obj.scalar == snap["scalar"], _same(obj.time, snap["time"]), obj.date == snap["date"], obj.name == snap["name"], obj.space_dim == snap["space_dim"], getattr(obj, "color_space", None) == snap["color_space"], obj.img.dtype == snap["dtype"]))
             elif kind == "array":
                 same_shape = tuple(obj.shape) == snap["shape"]
-                S.claim(f"{tag}:{name}:array_unchanged", S.and_(same_shape, S.eq(obj, snap["data"]) if same_shape else False))
+                S.claim(f"{tag}:{name}:array_unchanged", S.and_(same_shape, S.eq(np.asarray(obj), np.asarray(snap["data"])) if same_shape else False))
             else:
                 S.claim(f"{tag}:{name}:container_unchanged", S.and_(len(obj) == snap["n"], S.and_([_same(a, b) for a, b in zip(obj, snap["data"])]) if len(obj) == snap["n"] else False))
 
@@ -247,6 +267,16 @@ def run_op(c, op):
     if op == "random_patches":
         mask = c.t.array(f"mask{k}", np.ones((4, 4), dtype=bool))
         return da.random_patches(mask, 1, 2), None
+    if op == "subregion_voxelarray":
+        # region of interest partly outside the image: the caller's VoxelArray stays as it was
+        v = c.t.array(f"roi{k}", da.make_voxel(np.array([[-2, 1], [1, 5]])))
+        return A.subregion(v), a[0:1, 1:3]
+    if op == "subregion_coordinates":
+        E = c.t.image(f"E{k}", c.img(f"e{k}", dims=[1.0, 3.0]))  # voxel size 0.5 x 1.0, origin (0, 1)
+        co = c.t.array(f"roi{k}", da.make_coordinate(np.array([[-1.0, 0.75], [2.5, -5.0]])))
+        return E.subregion(co), E.img[0:2, 0:2]
+    if op.startswith("optical_"):
+        return run_optical(c, op, k)
     if op == "init_lists":
         dl = c.t.container(f"dimlist{k}", [S.real(f"dl{k}_0", lo=1, hi=2), S.real(f"dl{k}_1", lo=1, hi=2)])
         ol = c.t.container(f"orglist{k}", [S.real(f"ol{k}_0", lo=1, hi=2), S.real(f"ol{k}_1", lo=1, hi=2)])
@@ -262,6 +292,27 @@ def run_op(c, op):
         im = da.Image(arr, dimensions=dl, height=hgt, scalar=True)
         S.claim(f"{op}:height_keyword_sets_first_dimension", S.eq(im.dimensions[0], hgt))
         return im, None
+    raise ValueError(op)
+
+
+def run_optical(c, op, k):
+    da = c.da
+    if "uint8" in op:
+        raw = np.array([[[10, 200, 30], [0, 255, 128], [77, 5, 90]], [[250, 250, 1], [3, 60, 200], [128, 128, 128]]], dtype=np.uint8)
+        O = c.t.image(f"O{k}", da.OpticalImage(raw.copy(), dimensions=list(c.dims), color_space="HSV" if op.endswith("hsv") else "BGR", name="opt"))
+        return (O.to_monochromatic("green" if op.endswith("hsv") else "gray"), None)
+    a = S.array(f"o{k}", (2, 3, 3), lo=0, hi=1)
+    space = "BGR" if op.endswith("bgr") or op.endswith("returned") else "RGB"
+    O = c.t.image(f"O{k}", da.OpticalImage(a.copy(), dimensions=list(c.dims), color_space=space, name="opt"))
+    # what the conversions compute is not part of C17 (only that their argument survives): no expected value
+    if op == "optical_mono_red_of_bgr":
+        return O.to_monochromatic("red"), None
+    if op == "optical_mono_blue_of_rgb":
+        return O.to_monochromatic("blue"), a[..., 2]
+    if op == "optical_trichromatic_returned":
+        R = O.to_trichromatic("RGB", return_image=True)
+        S.claim(f"{op}:returned_image_is_a_new_object", R is not O)
+        return R, None
     raise ValueError(op)
 
 
